@@ -20,7 +20,9 @@ import re
 
 from ..finite import Interp
 from ..model import AnalysisError, namedtuple_fields, src, walk_no_nested
+from ..sval import NONE, const, same, strip_ids
 from ..terms import callee_name, calls_in, compare_parts, flatten_add, inline, kwargs_of, single_def
+from .. import tq
 from . import common
 
 EXPLANATION = ('static analysis: symbolic interpretation of prf+ (uninterpreted prf, symbolic byte strings) against the RFC '
@@ -123,7 +125,6 @@ def fmt_fields(fmt_call, env, prog, fi):
 def fmt_sizes(ctx, fi, unpack_call, env):
     """field sizes of struct.unpack('>{0}s{1}s..'.format(a, b, ..), ..) (a sa.sval CallRec) when the key size of the
     negotiated cipher / integrity / prf object is env['encr'] / env['integ'] / env['prf'] and the SA is ESP"""
-    from .. import tq
     f = unpack_call.args.get('#0')
     if f is None or not (tq.is_call(f, 'method.format') and f[2][0] == 'const' and isinstance(f[2][2], str)):
         return None
@@ -138,7 +139,7 @@ def fmt_sizes(ctx, fi, unpack_call, env):
             if kind in env:
                 return env[kind]
         if t[0] == 'attr' and t[2] == 'protocol_id':
-            return 'ESP'
+            return env.get('proto', 'ESP')
         if t[0] == 'global' and t[1].endswith('Protocol.ESP'):
             return 'ESP'
         raise tq.NoValue()
@@ -175,153 +176,145 @@ def run(ctx):
               '(digest size, output size) combinations under symbolic interpretation' % n, key=('K1', 'prfplus'),
               site=ctx.site(pp, pp.node), detail={'digest,size,got,expected': bad})
     pf = ctx.func('crypto.Prf.prf')
-    rets = [r for r in walk_no_nested(pf.node) if isinstance(r, ast.Return)]
-    e = inline(res, pf, rets[0].value, 3) if len(rets) == 1 else None
+    PF = ctx.sval(pf)
     pps = pf.call_params()
-    ctx.check(e is not None and src(e) == 'HMAC(%s, %s, digestmod=self.hasher).digest()' % (pps[0], pps[1]), 'K1',
-              'prf(key, data) = HMAC(key, data) with the negotiated digest', key=('K1', 'prf'), site=ctx.site(pf, pf.node))
+    common.expect_term(ctx, 'K1', PF, PF.ret(), 'HMAC(%s, %s, digestmod=self.hasher).digest()' % (pps[0], pps[1]),
+                       'prf(key, data) = HMAC(key, data) with the negotiated digest', ('K1', 'prf'), ctx.site(pf, pf.node))
 
     # ---------------------------------------------------------------- K2 / K3
     gk = ctx.func('ikesa.IkeSa.generate_ike_sa_key_material')
     prm = gk.call_params()
     ctx.require(prm[:7] == ['ike_proposal', 'nonce_i', 'nonce_r', 'spi_i', 'spi_r', 'shared_secret', 'old_sk_d'],
                 'parameters of generate_ike_sa_key_material changed: %s' % prm)
-    objs = {}
-    for name, cls_, ttype in (('prf', 'Prf', 'PRF'), ('integ', 'Integrity', 'INTEG'), ('cipher', 'Cipher', 'ENCR')):
-        for v, defs in res.local_defs(gk).items():
-            if len(defs) == 1 and isinstance(defs[0], ast.Call) and callee_name(defs[0]) == cls_ and defs[0].args \
-                    and src(defs[0].args[0]) == 'ike_proposal.get_transform(Transform.Type.%s)' % ttype:
-                objs[name] = v
-    ctx.check(len(objs) == 3, 'K3', 'PRF, integrity and cipher objects are built from the negotiated transforms of their type',
-              key=('K3', 'objects'), site=ctx.site(gk, gk.node), detail={'found': objs})
-    if len(objs) != 3:
-        return
-    P, I, C = objs['prf'], objs['integ'], objs['cipher']
-    ifs = [n_ for n_ in walk_no_nested(gk.node) if isinstance(n_, ast.If) and 'old_sk_d' in src(n_.test)]
-    ok = len(ifs) == 1
-    if ok:
-        t = ifs[0]
-        neg = src(t.test) in ('not old_sk_d', 'old_sk_d is None')
-        pos = src(t.test) in ('old_sk_d', 'old_sk_d is not None')
-        ok = (neg or pos) and len(t.body) == 1 and len(t.orelse) == 1 and all(isinstance(s, ast.Assign) for s in t.body + t.orelse)
-        if ok:
-            first, rekey = (t.body[0], t.orelse[0]) if neg else (t.orelse[0], t.body[0])
-            ok = src(first.targets[0]) == src(rekey.targets[0])
-            sk = src(first.targets[0])
-            f, r = first.value, rekey.value
-            ok = ok and isinstance(f, ast.Call) and src(f.func) == P + '.prf' and [src(a) for a in f.args] == [
-                'nonce_i + nonce_r', 'shared_secret']
-            ctx.check(ok, 'K2', 'initial SKEYSEED = prf(Ni | Nr, g^ir)', key=('K2', 'initial'), site=ctx.site(gk, first))
-            ok2 = isinstance(r, ast.Call) and src(r.func) == P + '.prf' and len(r.args) == 2 and src(r.args[0]) == 'old_sk_d' \
-                and [src(o) for o in flatten_add(r.args[1])] == ['shared_secret', 'nonce_i', 'nonce_r']
-            ctx.check(ok2, 'K2', 'rekey SKEYSEED = prf(SK_d(old), g^ir | Ni | Nr)', key=('K2', 'rekey'), site=ctx.site(gk, rekey))
-            ok = ok and ok2
-    ctx.check(ok, 'K2', 'SKEYSEED is selected on the presence of the old SK_d', key=('K2', 'branch'), site=ctx.site(gk, gk.node))
-    # keymat
-    km = None
-    for v, defs in res.local_defs(gk).items():
-        if len(defs) == 1 and isinstance(defs[0], ast.Call) and callee_name(defs[0]) == 'prfplus':
-            km = (v, defs[0])
-    ctx.check(km is not None, 'K3', 'the IKE key material is produced by prf+', key=('K3', 'prfplus-call'), site=ctx.site(gk, gk.node))
-    if km is None:
-        return
-    kv, kc = km
-    env = {P + '.key_size': 5, I + '.key_size': 7, C + '.key_size': 11}
-    ok = src(kc.func.value) == P and len(kc.args) == 3 and src(kc.args[0]) == sk \
-        and [src(o) for o in flatten_add(kc.args[1])] == ['nonce_i', 'nonce_r', 'spi_i', 'spi_r']
-    ctx.check(ok, 'K3', 'SK_* seed material = prf+(SKEYSEED, Ni | Nr | SPIi | SPIr, ...)', key=('K3', 'seed'), site=ctx.site(gk, kc),
-              detail={'found': src(kc)[:160]})
-    total = Interp(prog, gk, env).ev(kc.args[2]) if len(kc.args) == 3 else None
-    ctx.check(total == 3 * 5 + 2 * 7 + 2 * 11, 'K3', 'requested length = 3*prf + 2*integ + 2*encr key sizes', key=('K3', 'length'),
-              site=ctx.site(gk, kc), detail={'found': src(kc.args[2]) if len(kc.args) == 3 else None})
-    ups = [n_ for n_ in walk_no_nested(gk.node) if isinstance(n_, ast.Assign) and isinstance(n_.value, ast.Call)
-           and callee_name(n_.value) == 'unpack']
-    ctx.check(len(ups) == 1, 'K3', 'the key material is split once', key=('K3', 'split'), site=ctx.site(gk, gk.node))
-    if len(ups) == 1:
-        u = ups[0]
-        sizes = fmt_fields(u.value.args[0], env, prog, gk)
-        tg = [src(t) for t in u.targets[0].elts] if isinstance(u.targets[0], ast.Tuple) else []
-        ctx.check(src(u.value.args[1]) == kv, 'K3', 'the split consumes the prf+ output', key=('K3', 'split-input'), site=ctx.site(gk, u))
-        ctx.check(sizes == [5, 7, 7, 11, 11, 5, 5] and tg == RFC_ORDER and sum(sizes) == total, 'K3',
-                  'split order and widths: SK_d(prf) SK_ai SK_ar (integ) SK_ei SK_er (encr) SK_pi SK_pr (prf), covering the whole output',
-                  key=('K3', 'split-order'), site=ctx.site(gk, u), detail={'targets': tg, 'sizes': sizes})
+    V = ctx.sval(gk)
+    site = ctx.site(gk, gk.node)
+    kr = V.ret()
+    a = tq.args(kr) if tq.is_call(kr, 'namedtuple.Keyring') else {}
+    first = a.get(RFC_ORDER[0])
+    U = first[1] if first is not None and first[0] == 'index' and tq.is_call(first[1], 'struct.unpack') else None
+    ctx.check(U is not None and all(a.get(n) == ('index', U, const(i)) for i, n in enumerate(RFC_ORDER)), 'K3',
+              'the Keyring is filled with the split results in RFC order SK_d|SK_ai|SK_ar|SK_ei|SK_er|SK_pi|SK_pr', key=('K3', 'keyring-fill'),
+              site=site, detail={'returned': tq.text(kr, 500)})
     kf = namedtuple_fields(prog, 'ikesa', 'Keyring')
     ctx.check(kf == RFC_ORDER, 'K3', 'Keyring fields are declared in RFC order', key=('K3', 'keyring-fields'), detail={'found': kf})
-    kr = [c for c in calls_in(gk.node) if callee_name(c) == 'Keyring']
-    ctx.check(len(kr) == 1 and [src(a) for a in kr[0].args] == RFC_ORDER and not kr[0].keywords, 'K3',
-              'the Keyring is filled positionally from the like-named split results', key=('K3', 'keyring-fill'),
-              site=ctx.site(gk, gk.node))
+    if U is None:
+        return
+    up = [c for c in V.calls if c.term == U][0]
+    km = up.args.get('#1', NONE)
+    PRF = V.expr('Prf(ike_proposal.get_transform(Transform.Type.PRF))')
+    ok = tq.is_call(km, 'crypto.Prf.prfplus') and same(km[2], PRF)
+    ctx.check(ok, 'K3', 'the split consumes prf+ output computed with the PRF of the negotiated PRF transform', key=('K3', 'prfplus-call'),
+              site=site, detail={'split input': tq.text(km, 300)})
+    if not ok:
+        return
+    ka = tq.args(km)
+    skeyseed = ka.get(pp.call_params()[0], NONE)
+    old = ('param', 'old_sk_d')
+    initial = tq.restrict(skeyseed, tq.truthy_decider(old, False))
+    rekey = tq.restrict(skeyseed, tq.truthy_decider(old, True))
+    ctx.check(initial != rekey and not tq.contains(initial, old), 'K2', 'SKEYSEED is selected on the presence of the old SK_d',
+              key=('K2', 'branch'), site=site, detail={'SKEYSEED': tq.text(skeyseed, 400)})
+    common.expect_term(ctx, 'K2', V, initial, 'Prf(ike_proposal.get_transform(Transform.Type.PRF)).prf(nonce_i + nonce_r, shared_secret)',
+                       'initial SKEYSEED = prf(Ni | Nr, g^ir)', ('K2', 'initial'), site)
+    common.expect_term(ctx, 'K2', V, rekey,
+                       'Prf(ike_proposal.get_transform(Transform.Type.PRF)).prf(old_sk_d, shared_secret + nonce_i + nonce_r)',
+                       'rekey SKEYSEED = prf(SK_d(old), g^ir | Ni | Nr)', ('K2', 'rekey'), site)
+    common.expect_term(ctx, 'K3', V, ka.get(pp.call_params()[1]), 'nonce_i + nonce_r + spi_i + spi_r',
+                       'SK_* seed material = prf+(SKEYSEED, Ni | Nr | SPIi | SPIr, ...)', ('K3', 'seed'), site)
+    env = {'prf': 5, 'integ': 7, 'encr': 11}
+    sizes = fmt_sizes(ctx, gk, up, env)
+    total = key_total(ka.get(pp.call_params()[2], NONE), env)
+    ctx.check(total == 3 * 5 + 2 * 7 + 2 * 11, 'K3', 'requested length = 3*prf + 2*integ + 2*encr key sizes', key=('K3', 'length'),
+              site=site, detail={'found': tq.text(ka.get(pp.call_params()[2], NONE), 300)})
+    ctx.check(sizes == [5, 7, 7, 11, 11, 5, 5] and sum(sizes) == total, 'K3',
+              'split widths: SK_d(prf) SK_ai SK_ar (integ) SK_ei SK_er (encr) SK_pi SK_pr (prf), covering the whole output',
+              key=('K3', 'split-order'), site=site, detail={'sizes': sizes})
+    objs_ok = all(tq.contains(U, V.expr('%s(ike_proposal.get_transform(Transform.Type.%s))' % (c, t)))
+                  for c, t in (('Prf', 'PRF'), ('Integrity', 'INTEG'), ('Cipher', 'ENCR')))
+    ctx.check(objs_ok, 'K3', 'PRF, integrity and cipher sizes come from the negotiated transforms of their type',
+              key=('K3', 'objects'), site=site)
 
     # ---------------------------------------------------------------- K4
     gc = ctx.func('ikesa.IkeSa.generate_child_sa_key_material')
     cp_ = gc.call_params()
     ctx.require(cp_ == ['child_proposal', 'keyseed', 'sk_d'], 'parameters of generate_child_sa_key_material changed: %s' % cp_)
-    kc = [c for c in calls_in(gc.node) if callee_name(c) == 'prfplus']
-    ok = len(kc) == 1 and src(kc[0].func.value) == 'self.my_crypto.prf' and len(kc[0].args) == 3 \
-        and [src(a) for a in kc[0].args[:2]] == ['sk_d', 'keyseed']
-    ctx.check(ok, 'K4', 'KEYMAT = prf+(SK_d, keyseed, ...) with the IKE_SA\'s PRF', key=('K4', 'prfplus'), site=ctx.site(gc, gc.node))
-    ivar = evar = None
-    for v, defs in res.local_defs(gc).items():
-        for d in defs:
-            if isinstance(d, ast.Attribute) and d.attr == 'key_size' and isinstance(d.value, ast.Call):
-                if callee_name(d.value) == 'Integrity' and src(d.value.args[0]) == 'child_proposal.get_transform(Transform.Type.INTEG)':
-                    ivar = v
-                if callee_name(d.value) == 'Cipher' and src(d.value.args[0]) == 'child_proposal.get_transform(Transform.Type.ENCR)':
-                    evar = v
-    ctx.check(ivar is not None and evar is not None, 'K4', 'CHILD key sizes come from the negotiated INTEG and ENCR transforms',
-              key=('K4', 'sizes'), site=ctx.site(gc, gc.node))
-    if ok and ivar and evar:
-        edefs = res.local_defs(gc)[evar]
-        zero = [d for d in edefs if isinstance(d, ast.Constant) and d.value == 0]
-        guard = [n_ for n_ in walk_no_nested(gc.node) if isinstance(n_, ast.If) and any(
-            isinstance(s, ast.Assign) and src(s.targets[0]) == evar for s in n_.body)]
-        okg = len(edefs) == 2 and len(zero) == 1 and len(guard) == 1 and not guard[0].orelse
-        if okg:
-            c = compare_parts(guard[0].test)
-            okg = c is not None and c[1] is ast.Eq and {src(c[0]), src(c[2])} == {'child_proposal.protocol_id', 'Proposal.Protocol.ESP'}
-        ctx.check(okg, 'K4', 'the encryption key size is 0 unless the protocol is ESP', key=('K4', 'ah-no-encr'), site=ctx.site(gc, gc.node))
-        env = {ivar: 7, evar: 11}
-        total = Interp(prog, gc, env).ev(kc[0].args[2])
-        ctx.check(total == 2 * 7 + 2 * 11, 'K4', 'requested length = 2*integ + 2*encr key sizes', key=('K4', 'length'),
-                  site=ctx.site(gc, kc[0]))
-        ups = [n_ for n_ in walk_no_nested(gc.node) if isinstance(n_, ast.Assign) and isinstance(n_.value, ast.Call)
-               and callee_name(n_.value) == 'unpack']
-        ctx.check(len(ups) == 1, 'K4', 'KEYMAT is split once', key=('K4', 'split'), site=ctx.site(gc, gc.node))
-        if len(ups) == 1:
-            u = ups[0]
-            sizes = fmt_fields(u.value.args[0], env, prog, gc)
-            tg = [src(t) for t in u.targets[0].elts] if isinstance(u.targets[0], ast.Tuple) else []
-            kmv = single_def(res, gc, src(u.value.args[1]))
-            ctx.check(sizes == [11, 7, 11, 7] and tg == ['sk_ei', 'sk_ai', 'sk_er', 'sk_ar'] and kmv is kc[0], 'K4',
-                      'KEYMAT split: encryption key before integrity key, initiator-to-responder direction first',
-                      key=('K4', 'split-order'), site=ctx.site(gc, u), detail={'targets': tg, 'sizes': sizes})
-        kr = [c for c in calls_in(gc.node) if callee_name(c) == 'Keyring']
-        ctx.check(len(kr) == 1 and [src(a) for a in kr[0].args] == ['None', 'sk_ai', 'sk_ar', 'sk_ei', 'sk_er', 'None', 'None'], 'K4',
-                  'the CHILD keyring is filled at the like-named positions', key=('K4', 'keyring-fill'), site=ctx.site(gc, gc.node))
+    G = ctx.sval(gc)
+    site = ctx.site(gc, gc.node)
+    kr = G.ret()
+    a = tq.args(kr) if tq.is_call(kr, 'namedtuple.Keyring') else {}
+    first = a.get('sk_ei')
+    U = first[1] if first is not None and first[0] == 'index' and tq.is_call(first[1], 'struct.unpack') else None
+    ctx.check(U is not None and [a.get(n) for n in RFC_ORDER] == [NONE, ('index', U, const(1)), ('index', U, const(3)), ('index', U, const(0)),
+                                                                   ('index', U, const(2)), NONE, NONE], 'K4',
+              'KEYMAT split order SK_ei|SK_ai|SK_er|SK_ar, each stored at the like-named Keyring position', key=('K4', 'keyring-fill'),
+              site=site, detail={'returned': tq.text(kr, 500)})
+    if U is not None:
+        up = [c for c in G.calls if c.term == U][0]
+        km = up.args.get('#1', NONE)
+        ok = tq.is_call(km, 'crypto.Prf.prfplus') and same(km[2], G.expr('self.my_crypto.prf'))
+        ka = tq.args(km) if ok else {}
+        ok = ok and ka.get(pp.call_params()[0]) == ('param', 'sk_d') and ka.get(pp.call_params()[1]) == ('param', 'keyseed')
+        ctx.check(ok, 'K4', 'KEYMAT = prf+(SK_d, keyseed, ...) with the IKE_SA\'s PRF', key=('K4', 'prfplus'), site=site,
+                  detail={'split input': tq.text(km, 300)})
+        for proto, want in (('ESP', [11, 7, 11, 7]), ('AH', [0, 7, 0, 7])):
+            env = {'integ': 7, 'encr': 11, 'proto': proto}
+            sizes = fmt_sizes(ctx, gc, up, env)
+            total = key_total(ka.get(pp.call_params()[2], NONE), env) if ok else None
+            ctx.check(sizes == want and total == sum(want), 'K4', '%s: requested length and split widths are encr|integ|encr|integ%s' % (
+                proto, ' with no encryption key' if proto == 'AH' else ''), key=('K4', 'split-order', proto), site=site,
+                detail={'sizes': sizes, 'total': total})
+        ctx.check(tq.contains(U, G.expr('Integrity(child_proposal.get_transform(Transform.Type.INTEG))')) and
+                  tq.contains(U, G.expr('Cipher(child_proposal.get_transform(Transform.Type.ENCR))')), 'K4',
+                  'CHILD key sizes come from the negotiated INTEG and ENCR transforms', key=('K4', 'sizes'), site=site)
     # call sites: keyseed and sk_d
     nsites = 0
-    for q, req_msg in (('ikesa.IkeSa._process_create_child_sa_negotiation_req', 'responder'),
-                       ('ikesa.IkeSa._process_create_child_sa_negotiation_res', 'initiator')):
+    for q, role in (('ikesa.IkeSa._process_create_child_sa_negotiation_req', 'responder'),
+                    ('ikesa.IkeSa._process_create_child_sa_negotiation_res', 'initiator')):
         fi = ctx.func(q)
-        for c in [c for c in calls_in(fi.node) if callee_name(c) == 'generate_child_sa_key_material']:
+        S = ctx.sval(fi)
+        msg = fi.call_params()[0]
+        for c in S.calls_to(qual=gc.qual):
             nsites += 1
-            b = kwargs_of(c, target=gc)
-            ctx.check(src(b.get('sk_d')) == 'self.ike_sa_keyring.sk_d', 'K4', '%s: KEYMAT is keyed with the current IKE_SA\'s SK_d' % fi.name,
-                      key=('K4', q, 'sk_d'), site=ctx.site(fi, c))
-            ks = src(b.get('keyseed'))
-            defs = [d for d in res.local_defs(fi).get(ks, []) if isinstance(d, ast.AST)]
-            base = [d for d in defs if not any(isinstance(x, ast.Name) and x.id == ks for x in ast.walk(d))]
-            ext = [d for d in defs if d not in base]
-            okb = len(base) == 1 and [src(o) for o in flatten_add(base[0])] == ['request_payload_nonce.nonce', 'response_payload_nonce.nonce']
-            ctx.check(okb, 'K4', '%s: keyseed = Ni | Nr (request nonce first)' % fi.name, key=('K4', q, 'nonces'), site=ctx.site(fi, c))
-            oke = len(ext) == 1 and [src(o) for o in flatten_add(ext[0])][1:] == [ks] and src(flatten_add(ext[0])[0]).endswith('.shared_secret')
-            ifs = [n_ for n_ in walk_no_nested(fi.node) if isinstance(n_, ast.If) and any(
-                isinstance(s, ast.Assign) and s.value is (ext[0] if ext else None) for s in n_.body)]
-            oke = oke and len(ifs) == 1 and src(ifs[0].test).endswith('.get_transforms(Transform.Type.DH)') \
-                and src(ifs[0].test).split('.')[0] == src(b.get('child_proposal'))
-            ctx.check(oke, 'K4', '%s: g^ir is prepended exactly when the chosen proposal has a DH transform' % fi.name,
-                      key=('K4', q, 'dh-prefix'), site=ctx.site(fi, c))
-            check_nonce_sources(ctx, fi, req_msg)
+            b = c.args
+            st = ctx.site(fi, c.node)
+            common.expect_term(ctx, 'K4', S, b.get('sk_d'), 'self.ike_sa_keyring.sk_d', '%s: KEYMAT is keyed with the current IKE_SA\'s SK_d'
+                               % fi.name, ('K4', q, 'sk_d'), st)
+            ks = b.get('keyseed', NONE)
+            prop = b.get('child_proposal', NONE)
+            has_dh = ('call', 'message.Proposal.get_transforms', strip_ids(prop), (('type', ('global', 'message.Transform.Type.DH')),))
+
+            def dh(v):
+                def decide(test):
+                    return v if strip_ids(test) == has_dh else None
+                return decide
+
+            def auth(v):
+                return tq.eq_decider(('attr', ('param', msg), 'exchange_type'), ('global', 'message.Message.Exchange.IKE_AUTH'), v)
+            nodh, withdh = tq.restrict(ks, dh(False)), tq.restrict(ks, dh(True))
+            ctx.check(nodh != withdh and withdh[0] == 'add' and tuple(withdh[1][1:]) == (nodh[1] if nodh[0] == 'add' else (nodh,))
+                      and withdh[1][0][0] == 'attr' and withdh[1][0][2] == 'shared_secret', 'K4',
+                      '%s: g^ir is prepended exactly when the chosen proposal has a DH transform' % fi.name, key=('K4', q, 'dh-prefix'),
+                      site=st, detail={'keyseed': tq.text(ks, 500)})
+            for ex_auth in (True, False):
+                t = tq.restrict(nodh, auth(ex_auth))
+                parts = list(t[1]) if t[0] == 'add' else []
+                ok = len(parts) == 2 and all(x[0] == 'attr' and x[2] == 'nonce' for x in parts)
+                if ok:
+                    ni, nr = parts[0][1], parts[1][1]
+                    if ex_auth:
+                        ok = tq.match(S.expr('Message.parse(self.ike_sa_init_req_data).get_payload(Payload.Type.NONCE)'), ni) is not None \
+                            and tq.match(S.expr('Message.parse(self.ike_sa_init_res_data).get_payload(Payload.Type.NONCE)'), nr) is not None
+                    elif role == 'responder':
+                        ok = tq.match(S.expr('%s.get_payload(Payload.Type.NONCE, True)' % msg), ni) is not None \
+                            and tq.is_call(nr, 'new message.PayloadNONCE') and not tq.args(nr) \
+                            and any(x[0] == 'list' and any(nr == y or (isinstance(y, tuple) and nr in y) for y in x[1])
+                                    for _, x, _ in S.returns)
+                    else:
+                        ok = tq.match(S.expr('self.request.get_payload(Payload.Type.NONCE, True)'), ni) is not None \
+                            and tq.match(S.expr('%s.get_payload(Payload.Type.NONCE, True)' % msg), nr) is not None
+                ctx.check(ok, 'K4', '%s, %s: keyseed = Ni | Nr with Ni from the request and Nr from the response of %s' % (
+                    fi.name, 'IKE_AUTH' if ex_auth else 'CREATE_CHILD_SA', 'the retained IKE_SA_INIT messages' if ex_auth else 'this exchange'),
+                    key=('K4', q, 'nonces', 'auth' if ex_auth else 'child'), site=st, detail={'keyseed': tq.text(t, 400)})
     ctx.floor('K4 KEYMAT derivation sites', nsites, 2)
 
     # ---------------------------------------------------------------- K5
@@ -332,36 +325,21 @@ def run(ctx):
     check_ecdh(ctx)
 
 
-def check_nonce_sources(ctx, fi, role):
-    """request_payload_nonce / response_payload_nonce come from the request / response of the exchange on both roles"""
-    res = ctx.res
-    msg = fi.call_params()[0]
-    defs = res.local_defs(fi)
-    rq = [src(d) for d in defs.get('request_payload_nonce', []) if isinstance(d, ast.AST)]
-    rs = [src(d) for d in defs.get('response_payload_nonce', []) if isinstance(d, ast.AST)]
-    init_req = 'ike_sa_init_req.get_payload(Payload.Type.NONCE)'
-    init_res = 'ike_sa_init_res.get_payload(Payload.Type.NONCE)'
-    if role == 'responder':
-        want_rq = sorted([init_req, '%s.get_payload(Payload.Type.NONCE, encrypted=True)' % msg])
-        want_rs = sorted([init_res, 'PayloadNONCE()'])
-    else:
-        want_rq = sorted([init_req, 'self.request.get_payload(Payload.Type.NONCE, True)'])
-        want_rs = sorted([init_res, '%s.get_payload(Payload.Type.NONCE, True)' % msg])
-    ctx.check(sorted(rq) == want_rq and sorted(rs) == want_rs, 'K4',
-              '%s: Ni comes from the request and Nr from the response of the exchange (IKE_SA_INIT messages for IKE_AUTH)' % fi.name,
-              key=('K4', fi.qual, 'nonce-sources'), site=ctx.site(fi, fi.node), detail={'request': rq, 'response': rs})
-    for nm, data in (('ike_sa_init_req', 'self.ike_sa_init_req_data'), ('ike_sa_init_res', 'self.ike_sa_init_res_data')):
-        d = single_def(res, fi, nm)
-        ctx.check(isinstance(d, ast.AST) and src(d) == 'Message.parse(%s)' % data, 'K4', '%s: %s is the retained %s' % (
-            fi.name, nm, data), key=('K4', fi.qual, nm), site=ctx.site(fi, fi.node))
-    # the IKE_AUTH branch selects the retained messages
-    ifs = [n_ for n_ in walk_no_nested(fi.node) if isinstance(n_, ast.If) and src(n_.test) == '%s.exchange_type == Message.Exchange.IKE_AUTH' % msg
-           and any(isinstance(s, ast.Assign) and src(s.targets[0]) == 'request_payload_nonce' for s in n_.body)]
-    ok = len(ifs) == 1 and any(isinstance(s, ast.Assign) and src(s.targets[0]) == 'request_payload_nonce' and src(s.value) == init_req
-                               for s in ifs[0].body) and any(
-        isinstance(s, ast.Assign) and src(s.targets[0]) == 'response_payload_nonce' and src(s.value) == init_res for s in ifs[0].body)
-    ctx.check(ok, 'K4', '%s: the IKE_SA_INIT nonces are used exactly for the IKE_AUTH exchange' % fi.name,
-              key=('K4', fi.qual, 'ike-auth-nonces'), site=ctx.site(fi, fi.node))
+def key_total(t, env):
+    def leaf(x):
+        if x[0] == 'attr' and x[2] == 'key_size' and tq.is_call(x[1]):
+            kind = {'new crypto.Cipher': 'encr', 'new crypto.Integrity': 'integ', 'new crypto.Prf': 'prf'}.get(x[1][1])
+            if kind in env:
+                return env[kind]
+        if x[0] == 'attr' and x[2] == 'protocol_id':
+            return env.get('proto', 'ESP')
+        if x[0] == 'global' and x[1].endswith('Protocol.ESP'):
+            return 'ESP'
+        raise tq.NoValue()
+    try:
+        return tq.teval(t, leaf)
+    except (tq.NoValue, Exception):
+        return None
 
 
 def check_tables(ctx):
@@ -374,13 +352,22 @@ def check_tables(ctx):
     for k, v in want.items():
         ctx.check(have.get(k) == v, 'K5', 'PRF transform %d is HMAC with %s' % (k, v), key=('K5', 'prf', k), site='crypto.py:%s' % d.lineno,
                   detail={'found': have.get(k)})
-    ks, hs = prf.lookup('key_size'), prf.lookup('hash_size')
-    ctx.check(ks is not None and hs is not None and src(ks.node.body[-1]) == 'return self.hash_size'
-              and src(hs.node.body[-1]) == 'return self.hasher().digest_size', 'K5', 'PRF key size = output size = digest size',
-              key=('K5', 'prf-sizes'), site=ctx.site(hs, hs.node) if hs else None)
+    ks, hs = ctx.func('crypto.Prf.key_size'), ctx.func('crypto.Prf.hash_size')
+    digest = 'self.hasher().digest_size'
+
+    def size_term(fi):
+        t = ctx.sval(fi).ret()
+        # a property that returns another size property of the same object is looked through
+        for _ in range(3):
+            if t[0] == 'attr' and t[1] == ('param', 'self') and fi.cls.lookup(t[2]) is not None and fi.cls.lookup(t[2]).is_property:
+                t = ctx.sval(fi.cls.lookup(t[2])).ret()
+        return t
+    ctx.check(tq.match(ctx.sval(hs).expr(digest), size_term(ks)) is not None and tq.match(ctx.sval(hs).expr(digest), size_term(hs)) is not None,
+              'K5', 'PRF key size = output size = digest size', key=('K5', 'prf-sizes'), site=ctx.site(hs, hs.node))
     pi = ctx.func('crypto.Prf.__init__')
-    ctx.check(any(isinstance(n, ast.Assign) and src(n) == 'self.hasher = self._digestmod_dict[transform.id]' for n in walk_no_nested(pi.node)),
-              'K5', 'the PRF digest is the one of the negotiated transform', key=('K5', 'prf-init'), site=ctx.site(pi, pi.node))
+    PI = ctx.sval(pi)
+    common.expect_term(ctx, 'K5', PI, PI.final('self.hasher'), 'self._digestmod_dict[%s.id]' % pi.call_params()[0],
+                       'the PRF digest is the one of the negotiated transform', ('K5', 'prf-init'), ctx.site(pi, pi.node))
     integ = prog.cls('crypto.Integrity')
     d = integ.lookup_attr('_digestmod_dict')
     ctx.require(isinstance(d, ast.Dict), 'anchor vanished: Integrity._digestmod_dict')
@@ -391,23 +378,40 @@ def check_tables(ctx):
     for k, v in {2: ('hashlib.sha1', 96), 12: ('hashlib.sha256', 128), 14: ('hashlib.sha512', 256)}.items():
         ctx.check(have.get(k) == v, 'K5', 'INTEG transform %d is HMAC-%s truncated to %d bits' % (k, v[0].split('.')[1], v[1]),
                   key=('K5', 'integ', k), site='crypto.py:%s' % d.lineno, detail={'found': have.get(k)})
-    ks = integ.lookup('key_size')
-    ctx.check(ks is not None and src(ks.node.body[-1]) == 'return self.hasher().digest_size', 'K5', 'integrity key size = digest size '
-              '(20/32/64)', key=('K5', 'integ-key'), site=ctx.site(ks, ks.node) if ks else None)
+    ks = ctx.func('crypto.Integrity.key_size')
+    common.expect_term(ctx, 'K5', ctx.sval(ks), size_term(ks), digest, 'integrity key size = digest size (20/32/64)', ('K5', 'integ-key'),
+                       ctx.site(ks, ks.node))
+    ii = ctx.func('crypto.Integrity.__init__')
+    II = ctx.sval(ii)
+    common.expect_term(ctx, 'K5', II, II.final('self.hasher'), 'self._digestmod_dict[%s.id][0]' % ii.call_params()[0],
+                       'the integrity digest is the one of the negotiated transform', ('K5', 'integ-init'), ctx.site(ii, ii.node))
     ciph = prog.cls('crypto.Cipher')
     d = ciph.lookup_attr('_algorithm_dict')
     ctx.require(isinstance(d, ast.Dict), 'anchor vanished: Cipher._algorithm_dict')
     have = {int(prog.const_eval(k, ciph.module, ciph)): src(v) for k, v in zip(d.keys, d.values)}
     ctx.check(have == {12: 'algorithms.AES'}, 'K5', 'ENCR transform 12 is AES (CBC mode)', key=('K5', 'cipher-table'),
               site='crypto.py:%s' % d.lineno, detail={'found': have})
-    ks = ciph.lookup('key_size')
-    ctx.check(ks is not None and src(ks.node.body[-1]) == 'return (self._transform.keylen or self._algorithm.key_sizes[0]) // 8', 'K5',
-              'cipher key size = KEYLEN attribute // 8', key=('K5', 'cipher-key'), site=ctx.site(ks, ks.node) if ks else None)
-    for name in ('encrypt', 'decrypt'):
+    ks = ctx.func('crypto.Cipher.key_size')
+    kt = ctx.sval(ks).ret()
+    vals = common.term_table(ctx, kt, [{'self._transform.keylen': 256, 'self._algorithm.key_sizes[0]': 128},
+                                       {'self._transform.keylen': None, 'self._algorithm.key_sizes[0]': 128},
+                                       {'self._transform.keylen': 192, 'self._algorithm.key_sizes[0]': 128}], None)
+    ctx.check(vals == [32, 16, 24], 'K5', 'cipher key size = KEYLEN attribute // 8 (the algorithm\'s first size without one)',
+              key=('K5', 'cipher-key'), site=ctx.site(ks, ks.node), detail={'returned': tq.text(kt)})
+    for name, op in (('encrypt', 'encryptor'), ('decrypt', 'decryptor')):
         f = ctx.func('crypto.Cipher.' + name)
-        c = [x for x in calls_in(f.node) if callee_name(x) == '_Cipher']
-        ctx.check(len(c) == 1 and [src(a) for a in c[0].args] == ['self._algorithm(key)', 'modes.CBC(iv)'], 'K5',
-                  'Cipher.%s is AES-CBC under the given key and IV' % name, key=('K5', 'cbc', name), site=ctx.site(f, f.node))
+        F = ctx.sval(f)
+        k_, iv_, d_ = f.call_params()[:3]
+        obj = '_Cipher(self._algorithm(%s), modes.CBC(%s), backend=_)' % (k_, iv_)
+        pats = ['%s.%s().update(%s) + %s.%s().finalize()' % (obj, op, d_, obj, op)]
+        r = F.ret()
+        ok = tq.match(F.expr(pats[0]), r) is not None
+        if ok:
+            # update and finalize are applied to the same encryptor / decryptor object
+            objs = [x for x in tq.find_calls(r, 'method.' + op)]
+            ok = len({x for x in objs}) == 1
+        ctx.check(ok, 'K5', 'Cipher.%s is AES-CBC under the given key and IV (update + finalize of one %s)' % (name, op),
+                  key=('K5', 'cbc', name), site=ctx.site(f, f.node), detail={'returned': tq.text(r, 500)})
     # transform identifiers are IANA's
     ids = {'message.Transform.PrfId': {'PRF_HMAC_SHA1': 2, 'PRF_HMAC_SHA2_256': 5, 'PRF_HMAC_SHA2_512': 7},
            'message.Transform.IntegId': {'AUTH_HMAC_SHA1_96': 2, 'AUTH_HMAC_SHA2_256_128': 12, 'AUTH_HMAC_SHA2_512_256': 14},
@@ -438,22 +442,35 @@ def check_primes(ctx):
         ctx.check(ok, 'K6', 'group %d literal equals the RFC 3526 prime 2^%d - 2^%d - 1 + 2^64*(floor(2^%d pi) + %d)' % (
             gid, bits, bits - 64, bits - 130, c), key=('K6', 'prime', gid), site='crypto.py:%s' % d.lineno)
     mi = ctx.func('crypto.MODPDH.__init__')
-    t = src(mi.node)
-    ctx.check('self.key_len = len(self._group_dict[group]) // 2' in t and 'int(self._group_dict[self.group], 16)' in t, 'K6',
-              'the modulus is that literal and the public value width is its octet length', key=('K6', 'modulus'), site=ctx.site(mi, mi.node))
-    pn = [c for c in calls_in(mi.node) if callee_name(c) == 'DHParameterNumbers']
-    ctx.check(len(pn) == 1 and len(pn[0].args) == 2 and isinstance(pn[0].args[1], ast.Constant) and pn[0].args[1].value == 2
-              and src(pn[0].args[0]) == 'module', 'K6', 'generator 2', key=('K6', 'generator'), site=ctx.site(mi, mi.node))
-    tb = [c for c in calls_in(mi.node) if callee_name(c) == 'to_bytes']
-    ctx.check(len(tb) == 1 and [src(a) for a in tb[0].args] == ['self.key_len', "'big'"] and
-              src(single_def(ctx.res, mi, src(tb[0].func.value))) == 'self._private_key.public_key().public_numbers().y', 'K7',
-              'MODP public value = y as a fixed-width big-endian integer', key=('K7', 'modp-public'), site=ctx.site(mi, mi.node))
+    M = ctx.sval(mi)
+    g = mi.call_params()[0]
+    site = ctx.site(mi, mi.node)
+    lit = 'self._group_dict[%s]' % g
+    klen = M.final('self.key_len')
+    common.expect_term(ctx, 'K6', M, klen, 'len(%s) // 2' % lit, 'the public value width is the octet length of the modulus literal',
+                       ('K6', 'modulus-width'), site)
+    pn = M.final('self._pn')
+    common.expect_term(ctx, 'K6', M, pn, 'dh.DHParameterNumbers(int(%s, 16), 2)' % lit, 'the modulus is that literal, generator 2',
+                       ('K6', 'generator'), site)
+    priv = M.final('self._private_key')
+    ok = priv is not None and pn is not None and tq.match(M.expr('_.parameters(_).generate_private_key()'), priv) is not None \
+        and tq.contains(priv, pn)
+    ctx.check(ok, 'K6', 'the private key is generated for those parameters', key=('K6', 'private'), site=site,
+              detail={'found': tq.text(priv, 300) if priv else None})
+    pub = M.final('self.public_key')
+    ok = pub is not None and priv is not None and klen is not None
+    if ok:
+        env = dict(M.entry_env, PRIV=priv, KLEN=klen)
+        ok = same(pub, M.expr("PRIV.public_key().public_numbers().y.to_bytes(KLEN, 'big')", env))
+    ctx.check(ok, 'K7', 'MODP public value = y of that key as a fixed-width big-endian integer', key=('K7', 'modp-public'), site=site,
+              detail={'found': tq.text(pub, 400) if pub else None})
     cs = ctx.func('crypto.MODPDH.compute_secret')
-    t = src(cs.node)
-    ctx.check("int.from_bytes(peer_public_key, 'big')" in t and 'dh.DHPublicNumbers(peer_public_key_int, self._pn)' in t
-              and 'self.shared_secret = self._private_key.exchange(peer_public_key)' in t, 'K7',
-              'MODP shared secret = exchange with the peer value read big-endian in the same group', key=('K7', 'modp-secret'),
-              site=ctx.site(cs, cs.node))
+    CS = ctx.sval(cs)
+    pk = cs.call_params()[0]
+    common.expect_term(ctx, 'K7', CS, CS.final('self.shared_secret'),
+                       "self._private_key.exchange(dh.DHPublicNumbers(int.from_bytes(%s, 'big'), self._pn).public_key(_))" % pk,
+                       'MODP shared secret = exchange with the peer value read big-endian in the same group', ('K7', 'modp-secret'),
+                       ctx.site(cs, cs.node))
 
 
 def check_ecdh(ctx):
@@ -465,28 +482,42 @@ def check_ecdh(ctx):
     ctx.check(have == {19: 'ec.SECP256R1()', 20: 'ec.SECP384R1()', 21: 'ec.SECP521R1()'}, 'K7',
               'groups 19/20/21 are the NIST P-256/P-384/P-521 curves (RFC 5903)', key=('K7', 'curves'), detail={'found': have})
     ei = ctx.func('crypto.ECDH.__init__')
-    t = src(ei.node)
-    ctx.check('self.key_len = (self._private_key.key_size + 7) // 8' in t, 'K7', 'coordinate width = ceil(curve bits / 8)',
-              key=('K7', 'ec-width'), site=ctx.site(ei, ei.node))
-    pk = [n for n in walk_no_nested(ei.node) if isinstance(n, ast.Assign) and src(n.targets[0]) == 'self.public_key']
-    ok = len(pk) == 1 and [src(o) for o in flatten_add(pk[0].value)] == [
-        "public_numbers.x.to_bytes(self.key_len, 'big')", "public_numbers.y.to_bytes(self.key_len, 'big')"]
-    ctx.check(ok, 'K7', 'ECDH public value = x | y, each fixed-width big-endian', key=('K7', 'ec-public'), site=ctx.site(ei, ei.node))
-    ctx.check('ec.generate_private_key(self._ec_groups[group]' in t, 'K7', 'the private key is generated on the curve of the group',
-              key=('K7', 'ec-key'), site=ctx.site(ei, ei.node))
+    E = ctx.sval(ei)
+    g = ei.call_params()[0]
+    site = ctx.site(ei, ei.node)
+    priv = E.final('self._private_key')
+    common.expect_term(ctx, 'K7', E, priv, 'ec.generate_private_key(self._ec_groups[%s], backend=_)' % g,
+                       'the private key is generated on the curve of the group', ('K7', 'ec-key'), site)
+    klen = E.final('self.key_len')
+    ok = klen is not None and priv is not None and strip_ids(klen) == ('bin', '//', ('add', (('attr', strip_ids(priv), 'key_size'), const(7))), const(8))
+    ctx.check(ok, 'K7', 'coordinate width = ceil(curve bits / 8)', key=('K7', 'ec-width'), site=site,
+              detail={'found': tq.text(klen) if klen else None})
+    pub = E.final('self.public_key')
+    ok = pub is not None and priv is not None and klen is not None
+    if ok:
+        env = dict(E.entry_env, PRIV=priv, KLEN=klen)
+        want = E.expr("PRIV.public_key().public_numbers().x.to_bytes(KLEN, 'big') + PRIV.public_key().public_numbers().y.to_bytes(KLEN, 'big')", env)
+        ok = same(pub, want)
+    ctx.check(ok, 'K7', 'ECDH public value = x | y of that key, each fixed-width big-endian', key=('K7', 'ec-public'), site=site,
+              detail={'found': tq.text(pub, 500) if pub else None})
     cs = ctx.func('crypto.ECDH.compute_secret')
-    t = src(cs.node)
-    ctx.check("x = int.from_bytes(peer_public_key[:self.key_len], 'big')" in t and "y = int.from_bytes(peer_public_key[self.key_len:], 'big')" in t
-              and 'ec.EllipticCurvePublicNumbers(x, y, self._ec_groups[self.group])' in t
-              and 'self.shared_secret = self._private_key.exchange(ec.ECDH(), peer_public_key)' in t, 'K7',
-              'the peer value is split at the coordinate width into (x, y) on the same curve', key=('K7', 'ec-secret'),
-              site=ctx.site(cs, cs.node))
+    CS = ctx.sval(cs)
+    pk = cs.call_params()[0]
+    common.expect_term(ctx, 'K7', CS, CS.final('self.shared_secret'),
+                       "self._private_key.exchange(ec.ECDH(), ec.EllipticCurvePublicNumbers(int.from_bytes(%s[:self.key_len], 'big'), "
+                       "int.from_bytes(%s[self.key_len:], 'big'), self._ec_groups[self.group]).public_key(_))" % (pk, pk),
+                       'the peer value is split at the coordinate width into (x, y) on the same curve', ('K7', 'ec-secret'),
+                       ctx.site(cs, cs.node))
     fg = ctx.func('crypto.DiffieHellman.from_group')
-    tr = [n for n in walk_no_nested(fg.node) if isinstance(n, ast.Try)]
-    ok = len(tr) == 1 and len(tr[0].handlers) == 1 and src(tr[0].handlers[0].type) == 'KeyError' \
-        and src(tr[0].body[0]) == 'return MODPDH(group)' and src(tr[0].handlers[0].body[0]) == 'return ECDH(group)'
-    ctx.check(ok, 'K7', 'from_group: MODP if the group is a MODP group, else ECDH (fallback on KeyError only)', key=('K7', 'from-group'),
-              site=ctx.site(fg, fg.node))
+    FG = ctx.sval(fg)
+    g = fg.call_params()[0]
+    rets = [(pc, strip_ids(t)) for pc, t, _ in FG.returns]
+    modp = [r for r in rets if r[1] == strip_ids(FG.expr('MODPDH(%s)' % g)) and not r[0]]
+    ecdh = [r for r in rets if r[1] == strip_ids(FG.expr('ECDH(%s)' % g)) and len(r[0]) == 1 and r[0][0][0][0] == 'caught'
+            and r[0][0][0][1] == ('global', 'builtins.KeyError')]
+    ctx.check(len(rets) == 2 and len(modp) == 1 and len(ecdh) == 1, 'K7',
+              'from_group: MODP if the group is a MODP group, else ECDH (fallback on KeyError only)', key=('K7', 'from-group'),
+              site=ctx.site(fg, fg.node), detail={'returns': [(tq.text(t), [tq.text(a[0]) for a in pc]) for pc, t in rets]})
 
 
 MANIFEST = {
